@@ -155,6 +155,18 @@ func NewCRDTReplica(key ic.PrivKey, mutate func(cfg *crdt.Config)) *CRDTReplica 
 	if err != nil {
 		panic(err)
 	}
+	r := NewCRDTReplicaOn(h, psub, mutate)
+	r.Gater = g
+	inner := r.cancel
+	r.cancel = func() { inner(); cancel() }
+	return r
+}
+
+// NewCRDTReplicaOn starts a replica on a host and pubsub instance the
+// caller made (for instance the ones of ipfscluster.NewClusterHost, or a
+// misbehaving pubsub).
+func NewCRDTReplicaOn(h host.Host, psub *pubsub.PubSub, mutate func(cfg *crdt.Config)) *CRDTReplica {
+	ctx, cancel := context.WithCancel(context.Background())
 	cfg := &crdt.Config{}
 	cfg.Default()
 	cfg.RebroadcastInterval = 300 * time.Millisecond
@@ -182,7 +194,7 @@ func NewCRDTReplica(key ic.PrivKey, mutate func(cfg *crdt.Config)) *CRDTReplica 
 	case <-time.After(30 * time.Second):
 		panic("VERIF-INFRA: crdt replica not ready")
 	}
-	return &CRDTReplica{H: h, Cons: cons, Store: store, Rec: rec, Gater: g, Cfg: cfg, cancel: cancel}
+	return &CRDTReplica{H: h, Cons: cons, Store: store, Rec: rec, Gater: NewGater(), Cfg: cfg, cancel: cancel}
 }
 
 // Connect dials o.
